@@ -160,6 +160,8 @@ func TestC17(t *testing.T) {
 		{1, []uint64{5, 6, 7}},             // C17-F1: window size 1, second sample used to panic
 		{2, []uint64{1 << 63, 1 << 63, 4}}, // C17-F2: uint64 sum used to wrap to 0
 		{3, []uint64{^uint64(0), ^uint64(0), ^uint64(0), 1}},
+		{1 << 63, []uint64{5, 7, 9}},       // C17-F3: window size >= 2^63, second sample used to panic (int(twaBatch) < 0)
+		{^uint64(0), []uint64{5, 7, 9, 11}}, // same at the top of the range
 	}
 	for _, c := range corpus {
 		c := c
